@@ -2,6 +2,7 @@ package main
 
 import (
 	"fmt"
+	"go/token"
 	"go/types"
 	"sort"
 	"strings"
@@ -429,4 +430,291 @@ func partialCopies(fns []*ssa.Function) []partialCopy {
 		}
 	}
 	return out
+}
+
+// ZERO-MATCHES-HANDLER-CHAIN: a node whose pre-node handler chain ends in the map-to-input converter (a node with
+// field mappings or static values) receives, through its channel, the intermediate map[string]any — also when no data
+// arrived at all. So (1) graph.compile records, in the very loop that appends inputFieldMappingConverter, the node key
+// in a set it hands to the runner, and (2) initChannelManager picks, for every channel it builds, the map-typed zero
+// value / empty stream under a lookup of that set with the channel's own key.
+func mappedZeroChecks(w *World, r *Report, rule string) {
+	compile := w.Fn("compose", "graph.compile")
+	icm := w.Fn("compose", "runner.initChannelManager")
+	fConv := w.Field("compose", "genericHelper", "inputFieldMappingConverter")
+	runnerT := w.Named("compose", "runner")
+	// (1) the loop that appends the converter also records the key
+	var convAppend *ssa.Call
+	instrs(compile, func(in ssa.Instruction) {
+		c, ok := in.(*ssa.Call)
+		if !ok || !isBuiltin(c, "append") || len(c.Call.Args) < 2 {
+			return
+		}
+		if sl, ok := c.Call.Args[1].(*ssa.Slice); ok {
+			if al, ok := sl.X.(*ssa.Alloc); ok {
+				for _, ref := range *al.Referrers() {
+					if ia, ok := ref.(*ssa.IndexAddr); ok {
+						for _, r2 := range *ia.Referrers() {
+							if st, ok := r2.(*ssa.Store); ok && isLoadOfField(st.Val, fConv) {
+								convAppend = c
+							}
+						}
+					}
+				}
+			}
+		}
+	})
+	if convAppend == nil {
+		undecidedf("%s: graph.compile: the append of inputFieldMappingConverter was not found", rule)
+	}
+	var setMap ssa.Value
+	for _, in := range convAppend.Block().Instrs {
+		if mu, ok := in.(*ssa.MapUpdate); ok {
+			if b, ok := constBool(mu.Value); ok && b {
+				setMap = mu.Map
+			}
+		}
+	}
+	var setField *types.Var
+	if setMap != nil {
+		for _, fw := range fieldWrites(compile) {
+			if fw.owner == runnerT && fw.val == setMap {
+				setField = fw.field
+			}
+		}
+	}
+	r.Check(setField != nil, rule, "graph.compile: nodes given the map-to-input converter are recorded for the runner", convAppend.Pos(), "the block that appends inputFieldMappingConverter marks the key in a set stored in a runner field",
+		"the runner is not told which nodes take their input as the intermediate map[string]any: when such a node is triggered without data (all data predecessors skipped, or static values only) its channel hands the handler chain a zero value of the NODE's input type — the static-value merge fails with '(mergeValues) unsupported type', the converter with 'unexpected input type', although the same workflow runs when the node's input is a map")
+	if setField == nil {
+		return
+	}
+	// (2) every channel built in initChannelManager chooses its zero value / empty stream under that set
+	isMapInst := func(v ssa.Value, name string) bool {
+		f, ok := v.(*ssa.Function)
+		if !ok || origin(f).Name() != name || len(f.TypeArgs()) != 1 {
+			return false
+		}
+		m, ok := f.TypeArgs()[0].Underlying().(*types.Map)
+		return ok && types.Identical(m.Key(), types.Typ[types.String])
+	}
+	n := 0
+	instrs(icm, func(in ssa.Instruction) {
+		c, ok := in.(*ssa.Call)
+		if !ok || len(c.Call.Args) != 4 || c.Call.IsInvoke() || staticCallee(c) != nil {
+			return
+		}
+		if _, isB := c.Call.Value.(*ssa.Builtin); isB {
+			return
+		}
+		n++
+		for ai, nm := range map[int]string{2: "zeroValueFromGeneric", 3: "emptyStreamFromGeneric"} {
+			phi, ok := c.Call.Args[ai].(*ssa.Phi)
+			good := false
+			if ok {
+				for ei, e := range phi.Edges {
+					if !isMapInst(e, nm) {
+						continue
+					}
+					// the edge comes from the true side of a lookup in the set
+					pred := phi.Block().Preds[ei]
+					for _, g := range append(guardsOf(pred), guardsOfEdge(pred, phi.Block())...) {
+						if lk, ok := g.cond.(*ssa.Lookup); ok && g.pol && isLoadOfField(lk.X, setField) {
+							good = true
+						}
+					}
+				}
+			}
+			r.Check(good, rule, fmt.Sprintf("initChannelManager: channel #%d argument %d follows the mapped-input set", n, ai), c.Pos(), "map[string]any zero value / empty stream under r."+setField.Name()+"[key]", "a channel's 'no data' value is always the node-typed one: a node with mapped input triggered without data gets a value its handler chain cannot take")
+		}
+	})
+	if n < 2 {
+		undecidedf("%s: initChannelManager builds %d channels through the builder (2 expected: nodes, END)", rule, n)
+	}
+}
+
+// guardsOfEdge: the guard contributed by the edge pred->b itself when pred ends in an If.
+func guardsOfEdge(pred, b *ssa.BasicBlock) []guard {
+	if len(pred.Instrs) == 0 {
+		return nil
+	}
+	iff, ok := pred.Instrs[len(pred.Instrs)-1].(*ssa.If)
+	if !ok {
+		return nil
+	}
+	if pred.Succs[0] == b && pred.Succs[1] != b {
+		return []guard{{iff.Cond, true, iff}}
+	}
+	if pred.Succs[1] == b && pred.Succs[0] != b {
+		return []guard{{iff.Cond, false, iff}}
+	}
+	return nil
+}
+
+// unpackRefusalChecks: unpackStreamReader[T] refuses a reader (returns false — its callers panic "unexpected input
+// type") only when NEITHER side is interface-typed: both the target type's kind and the reader's chunk type's kind
+// were tested against reflect.Interface on the way to the refusal.
+func unpackRefusalChecks(w *World, r *Report, rule string) {
+	up := w.Fn("compose", "unpackStreamReader")
+	n := 0
+	instrs(up, func(in ssa.Instruction) {
+		ret, ok := in.(*ssa.Return)
+		if !ok || len(ret.Results) != 2 {
+			return
+		}
+		if b, isC := constBool(ret.Results[1]); !isC || b {
+			return
+		}
+		n++
+		kindOf := func(pred func(recv ssa.Value) bool) bool {
+			return hasGuard(ret.Block(), func(g guard) bool {
+				op, x, y, ok := asCmp(g.cond)
+				if !ok {
+					return false
+				}
+				// Kind() == reflect.Interface on the false side (or != on the true side)
+				if !((op == token.EQL && !g.pol) || (op == token.NEQ && g.pol)) {
+					return false
+				}
+				kc, ok := x.(*ssa.Call)
+				if !ok || !kc.Call.IsInvoke() || kc.Call.Method.Name() != "Kind" {
+					return false
+				}
+				c, ok := y.(*ssa.Const)
+				if !ok || c.Value == nil || c.Value.String() != "20" { // reflect.Interface
+					return false
+				}
+				return pred(kc.Call.Value)
+			})
+		}
+		target := kindOf(func(v ssa.Value) bool {
+			return dataDependsOnCall(v, "TypeOf")
+		})
+		chunk := kindOf(func(v ssa.Value) bool {
+			c, ok := v.(*ssa.Call)
+			return ok && c.Call.IsInvoke() && c.Call.Method.Name() == "getChunkType"
+		})
+		r.Check(target && chunk, rule, fmt.Sprintf("unpackStreamReader: refusal #%d only when neither side is interface-typed", n), ret.Pos(), "both T's kind and the reader's chunk kind were compared with reflect.Interface",
+			fmt.Sprintf("a reader whose chunks are interface-typed (target tested: %v, chunk type tested: %v) is refused for a concrete T: the output of an any-typed state handler on a pass-through node (the only spelling addNode accepts) reaches the typed successor as StreamReader[any] and the node panics 'unexpected input type' in Stream / Collect / Transform, while Invoke narrows the value and succeeds", target, chunk))
+	})
+	if n == 0 {
+		undecidedf("%s: unpackStreamReader has no refusal return", rule)
+	}
+}
+
+// dataDependsOnCall: v is (a load of a cell holding) the result of a call to a function of that name.
+func dataDependsOnCall(v ssa.Value, name string) bool {
+	seen := map[ssa.Value]bool{}
+	var visit func(v ssa.Value, d int) bool
+	visit = func(v ssa.Value, d int) bool {
+		if v == nil || d > 8 || seen[v] {
+			return false
+		}
+		seen[v] = true
+		switch x := v.(type) {
+		case *ssa.Call:
+			if sc := staticCallee(x); sc != nil && origin(sc).Name() == name {
+				return true
+			}
+		case *ssa.UnOp:
+			return visit(x.X, d+1)
+		case *ssa.Alloc:
+			for _, ref := range *x.Referrers() {
+				if st, ok := ref.(*ssa.Store); ok && st.Addr == ssa.Value(x) && visit(st.Val, d+1) {
+					return true
+				}
+			}
+		}
+		return false
+	}
+	return visit(v, 0)
+}
+
+// inputKeyNarrowingChecked: the invoke half of inputKeyedComposableRunnable passes the value found under the key to
+// the inner runnable only after the inner node's own input checker (genericHelper.inputConverter.invoke) — the stream
+// half narrows through inputStreamFilter, which checks.
+func inputKeyNarrowingChecked(w *World, r *Report, rule string) {
+	ik := w.Fn("compose", "inputKeyedComposableRunnable")
+	fInv := w.Field("compose", "handlerPair", "invoke")
+	n := 0
+	for _, lit := range withAnons(ik) {
+		if lit == ik || len(lit.Params) < 2 {
+			continue
+		}
+		if it, isAny := lit.Params[1].Type().Underlying().(*types.Interface); !isAny || !it.Empty() {
+			continue // the stream half
+		}
+		instrs(lit, func(in ssa.Instruction) {
+			c, ok := in.(*ssa.Call)
+			if !ok || c.Call.IsInvoke() || staticCallee(c) != nil || len(c.Call.Args) < 2 {
+				return
+			}
+			if _, isB := c.Call.Value.(*ssa.Builtin); isB {
+				return
+			}
+			// the inner call: callee is the captured `i`
+			ld, ok := c.Call.Value.(*ssa.UnOp)
+			if ok {
+				if _, isFV := ld.X.(*ssa.FreeVar); !isFV {
+					return
+				}
+			} else if _, isFV := c.Call.Value.(*ssa.FreeVar); !isFV {
+				return
+			}
+			n++
+			checked := false
+			seen := map[ssa.Value]bool{}
+			var visit func(v ssa.Value, d int)
+			visit = func(v ssa.Value, d int) {
+				if v == nil || d > 10 || seen[v] || checked {
+					return
+				}
+				seen[v] = true
+				switch x := v.(type) {
+				case *ssa.Call:
+					if f, _ := loadedField(x.Call.Value); f != nil && sameField(f, fInv) {
+						checked = true
+					}
+				case *ssa.Extract:
+					visit(x.Tuple, d+1)
+				case *ssa.Phi:
+					// every edge must be checked: a phi with an unchecked edge is not a check
+					all := true
+					for _, e := range x.Edges {
+						sub := false
+						save := checked
+						checked = false
+						visit(e, d+1)
+						sub = checked
+						checked = save
+						if !sub {
+							all = false
+						}
+					}
+					checked = all
+				case *ssa.UnOp:
+					if al, ok := x.X.(*ssa.Alloc); ok {
+						all, cnt := true, 0
+						for _, ref := range *al.Referrers() {
+							if st, ok := ref.(*ssa.Store); ok && st.Addr == ssa.Value(al) {
+								cnt++
+								save := checked
+								checked = false
+								visit(st.Val, d+1)
+								if !checked {
+									all = false
+								}
+								checked = save
+							}
+						}
+						checked = all && cnt > 0
+					}
+				}
+			}
+			visit(c.Call.Args[1], 0)
+			r.Check(checked, rule, fmt.Sprintf("inputKeyedComposableRunnable (invoke half): inner call #%d gets a checked value", n), c.Pos(), "the value under the key went through the node's inputConverter.invoke",
+				"the value found under the input key is handed to the node as it is: a wrong dynamic type panics inside the node ('unexpected input type') in Invoke mode where Stream mode reports an ordinary error from inputStreamFilter — and through a keyed pass-through node it crosses a concrete-to-concrete edge unchecked")
+		})
+	}
+	if n == 0 {
+		undecidedf("%s: the invoke half of inputKeyedComposableRunnable calls no captured function", rule)
+	}
 }
